@@ -73,8 +73,13 @@ example : (parseCstValue exArray).map (printValue exArray) =
     some [0x5B, 0x20, 0x31, 0x2C, 0x20, 0x27, 0x61, 0x27, 0x20, 0x2C, 0x0A, 0x20, 0x23, 0x20, 0x63, 0x0A,
           0x20, 0x32, 0x2E, 0x35, 0x2C, 0x0A, 0x5D] := by decide +kernel
 
-/-- T03_fixpoint, full strength at the document level (not proved; holds only for documents whose
-    table-naming key segments are spelled once and whose dotted keys are adjacent — F15): -/
+/-- T03_doc_tiling, full strength at the document level (false in general: holds only for documents
+    whose table-naming key segments are spelled once and whose dotted keys are adjacent — F15).
+    Proved in `Props/C03Doc.lean` for values with inline tables (`T03_value_tiling_inline_partial`),
+    for header-less documents (`T03_doc_tiling_root_partial`, `T03_doc_norm_root_partial` with the BOM
+    and final-newline normalisations, `T03_print_fixpoint_partial`), and on the printer side for flat
+    documents with headers (`T03_doc_tiling_headers_partial`); counterexamples for each side
+    condition are there too. -/
 def T03_doc_tiling_statement : Prop :=
   ∀ (s : Bytes) (d : CDoc), parseCst s = some d → Doc.stripBom s = s →
     (∀ b ∈ s, b ≠ 0x0D) → (s.getLast? = some 0x0A ∨ s = []) → printDoc s d = s
